@@ -50,6 +50,21 @@ package httpserver
 // widest the statement allows, no assertion is made about WHICH generation of
 // the window serves an overlapping request; /.well-known/acme-challenge/ is not
 // requested.
+//
+// Known finding on the unchanged tree (mode pipe): C11.old-generation-panic/RateLimiter
+// (filters/ratelimiter reload() moves the limiter to the new generation and sets
+// prev.rl = nil; a request that entered the old generation before the update
+// and reaches the RateLimiter afterwards dereferences nil).
+//
+// Notes: spec texts are validated by the real supervisor.NewSpec once per
+// process and decoded again (supervisor.C11Respec, harness export) for every
+// further use, because validation dominates the run time; the environment
+// variable VERIF_C11_SKIP=<Kind,...> (development aid for mutation experiments
+// only) replaces the named filter kinds by Mock in generated scenarios.
+// Pipeline.Close ranges over a Go map: the order in which the filters of a
+// closed generation are closed is not reproducible, nothing observed depends
+// on it (map_ranges is deliberately not used: the rewritten range draws from
+// the tape inside spec validation, which the memo above skips).
 
 import (
 	"encoding/json"
